@@ -51,6 +51,44 @@ func (c *pieceCtx) factCall(name string, want bool, need LockSet) lockedFact {
 	}
 }
 
+// samePiecePtr: two pointers to a Piece denote the same element: the same value, or &s[i] of the same slice value
+// (or of two loads of the same field) with the same index value.
+func samePiecePtr(a, b ssa.Value) bool {
+	if a == b {
+		return true
+	}
+	ia, ok1 := a.(*ssa.IndexAddr)
+	ib, ok2 := b.(*ssa.IndexAddr)
+	if !ok1 || !ok2 {
+		return false
+	}
+	if stripIntConv(ia.Index) != stripIntConv(ib.Index) {
+		return false
+	}
+	if ia.X == ib.X {
+		return true
+	}
+	fa, ba := loadedField(ia.X)
+	fb, bb := loadedField(ib.X)
+	return fa != nil && fa == fb && ba == bb
+}
+
+// factCallFor: as factCall, for the piece that `piece` points to: a test made on another element of the table (the
+// first piece of a read that goes on into the following ones) says nothing about this one.
+func (c *pieceCtx) factCallFor(name string, want bool, need LockSet, piece ssa.Value) lockedFact {
+	return lockedFact{
+		name: fmt.Sprintf("%s() == %v under the lock for %p", name, want, piece),
+		need: need,
+		edge: func(cond ssa.Value, pol bool) bool {
+			call := pieceMethodCall2(cond, name)
+			if call == nil || pol != want || len(call.Call.Args) == 0 {
+				return false
+			}
+			return samePiecePtr(call.Call.Args[0], piece)
+		},
+	}
+}
+
 // factNotDeleted: the fact "the store is not deleted" (!ps.deleted).
 func (c *pieceCtx) factNotDeleted() lockedFact {
 	return lockedFact{
@@ -332,8 +370,18 @@ func (c *pieceCtx) r2(rule string) {
 				r.Fail(rule, key, u.In.Pos(), "piece bytes are copied out in lock state {%s}: the copy must run with the lock held, or eviction/deletion can free (munmap) the buffer under the reader", st)
 				continue
 			}
-			if ok, where := c.reval().establishedAt(u.In, c.factCall("complete", true, LR|LW), 0); !ok {
-				r.Fail(rule, key, u.In.Pos(), "the copy out of the piece buffer is not preceded, on every path %s, by complete() == true tested under the lock: data of an incomplete, busy, failed or evicted piece could be returned", where)
+			// … tested on the very piece whose buffer is copied (when that piece is identified by &ps.pieces[i]; inside a
+			// helper that is handed the piece the test is looked for as before)
+			fact := c.factCall("complete", true, LR|LW)
+			if ldu, isLd := ld.(*ssa.UnOp); isLd {
+				if fa, isFA := ldu.X.(*ssa.FieldAddr); isFA {
+					if _, isIA := fa.X.(*ssa.IndexAddr); isIA {
+						fact = c.factCallFor("complete", true, LR|LW, fa.X)
+					}
+				}
+			}
+			if ok, where := c.reval().establishedAt(u.In, fact, 0); !ok {
+				r.Fail(rule, key, u.In.Pos(), "the copy out of the piece buffer is not preceded, on every path %s, by complete() == true tested under the lock on the piece that is copied: data of an incomplete, busy, failed or evicted piece could be returned", where)
 				continue
 			}
 			// the data loaded must be loaded under the same lock hold
